@@ -23,6 +23,7 @@ def main (args : List String) : IO UInt32 := do
   | "C05" :: rest => Driver.C05.main rest; return 0
   | "C05sess" :: rest => Driver.C05.main rest; return 0
   | "C05race" :: rest => Driver.C05.main rest; return 0
+  | "C11sess" :: rest => Driver.C05.main rest; return 0
   | "C05parse" :: rest => Driver.C05.mainParse rest; return 0
   | "C14" :: rest => Driver.C14.main rest; return 0
   | "C18" :: rest => Driver.C18.main rest; return 0
